@@ -428,8 +428,8 @@ type AVCSliceBits struct {
 	HeaderBits int // bits of slice_header() in the RBSP (NAL header byte not included)
 	// HeaderBytes is the number of NAL unit bytes the header occupies: NAL header byte, the RBSP bytes that
 	// contain header bits and the emulation prevention bytes in front of them.
-	HeaderBytes int
-	PredWeightTablePresent bool
+	HeaderBytes               int
+	PredWeightTablePresent    bool
 	SliceGroupChangeCycleBits int
 }
 
